@@ -35,6 +35,19 @@ check('C19', 'specs/DiskClean.tla + specs/DiskCleanTrace.tla + harness/c19_diskc
       'Trusted: sqlite; sparse files stand in for blob bytes (cleanup accounts from the database); one stream per data blob.',
       'TLC exhaustive model + TLC trace validation of real cleanup passes', 'DESIGN.md 5/C19')
 
+check('C11', 'specs/RoutingTable.tla + specs/RoutingTableTrace.tla + harness/c11_routing.py',
+      'Leg A: TLC explores RoutingTable.tla (add_peer with same-address eviction, same-id refresh, split, join, the '
+      'bad/unknown/recently-replied eviction rule with every probe outcome, remove_peer; B=4, K=2, <=4 contacts (5 and K=3 '
+      'thorough), symmetric addresses) against Partition, Membership, Capacity, NoDupId, NoDupAddr, NoIndexError, '
+      'LiveNotDisplaced, CloserAdmitted, with nine reachability witnesses. Leg C: 250 (1500) seeded histories of 20-135 '
+      'calls run on the real TreeRoutingTable (K=8, 384-bit ids sharing 0..383 prefix bits with the own id incl. exact bucket '
+      'boundaries, liveness book-keeping through PeerManager, scripted probe outcomes); the full bucket structure after every '
+      'call is logged rank-compressed and TLC evaluates the same invariants on every real state, the two action clauses on '
+      'every real (pre, post, call), and recomputes every find_close_peers answer from logged XOR ranks.',
+      'Trusted: rank compression preserves order/equality (all the clauses use); Python int XOR as the metric; add_peer is not '
+      'interleaved with other table calls inside one probe (the protocol serialises them).',
+      'TLC exhaustive model + TLC trace validation of real routing-table histories', 'DESIGN.md 5/C11')
+
 NOT_YET = 'check not built yet in this round (design in DESIGN.md section 5); will be claimed once its driver exists'
 ALL = [f'C{i:02d}' for i in range(1, 21)]
 
